@@ -315,6 +315,7 @@ static inline void %(s)s_clear(%(s)s *v) { v->n = 0; }
 #define %(s)s_SNAPS %(s)s_SNAP(verif_gi), %(s)s_SNAP(verif_gj), %(s)s_SNAP(verif_hi), %(s)s_SNAP(verif_hj)
 static inline void %(s)s_push_back(%(s)s *v, %(T)s *x) { %(T)s t = *x; if (v->n == v->cap) %(s)s_grow(v, %(s)s_SNAPS); v->b[v->n] = t; v->n++; }
 static inline %(T)s *%(s)s_at(%(s)s *v, unsigned long i) { if (i >= v->n) { __verif_exc = %(OOR)s; return v->b; } return v->b + i; }
+static inline void %(s)s_pop_back(%(s)s *v) { __CPROVER_assert(v->n > 0, "pop_back on a non-empty vector"); v->n--; }
 static inline void %(s)s_resize(%(s)s *v, unsigned long n) { if (n <= v->n) { v->n = n; return; } if (n > %(MAXSZ)s) { __verif_exc = %(LE)s; return; } %(s)s_grow_to(v, n, %(s)s_SNAPS); }
 """ % dict(s=s, T=T, OOR=OOR, LE=LE, MAXSZ=MAXSZ)
         def preserved(upto_old_n=True):
@@ -367,6 +368,7 @@ static inline void %(s)s_null(%(s)s *s) { s->p = 0; }
 static inline void %(s)s_raw(%(s)s *s, %(T)s *p) { s->p = p; }
 static inline void %(s)s_move(%(s)s *s, %(s)s *o) { s->p = o->p; o->p = 0; }
 static inline void %(s)s_dtor(%(s)s *s) { if (s->p) %(D)s(s->p); s->p = 0; }
+static inline void %(s)s_reset_raw(%(s)s *s, %(T)s *p) { %(T)s *old = s->p; s->p = p; if (old) %(D)s(old); }
 static inline void %(s)s_assign_move(%(s)s *s, %(s)s *o) { %(T)s *old = s->p; s->p = o->p; o->p = 0; if (old) %(D)s(old); }
 """ % dict(s=s, T=T, D=D)
         self.model_deps = getattr(self, "model_deps", {})
@@ -715,6 +717,8 @@ static inline void verif_lock_guard_dtor(std_lock_guard_std_mutex *g) { g->m->g_
                     return deref(X("comma", X("call", s + "_dtor", [addr(o)]), addr(o), ty=Ty("ptr", to=oty)))
             if m == "reset" and not args:
                 return X("call", s + "_dtor", [addr(o)])
+            if m == "reset" and len(args) == 1:
+                return X("call", s + "_reset_raw", [addr(o), tr.rv(args[0])])
             raise ExtractionBreak("std::unique_ptr member '%s' has no model" % m)
         # ---- shared_ptr members
         if re.match(r"std::(__shared_ptr_access|__shared_ptr|shared_ptr)<", q) and obj is not None:
@@ -863,6 +867,8 @@ static inline void verif_lock_guard_dtor(std_lock_guard_std_mutex *g) { g->m->g_
                     return X("callx", X("call", s + "_resize", [addr(o), tr.rv(args[0])], ty=VOID), s + "_resize", tr.jump_text(), None, ty=VOID)
                 if m == "clear":
                     return X("call", s + "_clear", [addr(o)], ty=VOID)
+                if m == "pop_back" and not (canon.startswith("std::vector<") and tr.opts.get("bounded_vec")):
+                    return X("call", s + "_pop_back", [addr(o)], ty=VOID)
                 if m == "push_back":
                     fn = s + "_push_back"
                     if canon.startswith("std::vector<") and tr.opts.get("bounded_vec") and parse_type(ps[0]).rv:
